@@ -2,7 +2,8 @@
 
 use serde_json::json;
 
-use crate::drive::exchange::{check_against_truth, run_exchange, ExchangeSpec, Obs, Outcome, Sched};
+use crate::drive::exchange::{check_against_truth, run_exchange, AwaitMode, ExchangeSpec, Obs, Outcome, ReqFraming, RespSpec, Sched, ServerPre, Terminal};
+use crate::model::head::{Field, RespHead};
 use crate::drive::exgen::{gen_exchange, spec_json};
 use crate::infra::runner::{PropDef, RandomDef, Tier};
 use crate::infra::stats::Stats;
@@ -15,16 +16,61 @@ fn run_list(specs: &[ExchangeSpec], full: &[u8], offsets_out: &mut Vec<usize>, s
     for (i, spec) in specs.iter().enumerate() {
         let is_last = i + 1 == specs.len();
         offsets_out.push(off);
-        let obs = match run_exchange(spec, None, &full[off..], s).map_err(|e| format!("exchange {}: {}", i, e))? {
-            Outcome::Done(o, _) => o,
+        let (obs, term) = match run_exchange(spec, None, &full[off..], s).map_err(|e| format!("exchange {}: {}", i, e))? {
+            Outcome::Done(o, t) => (o, t),
             Outcome::Premature(_) => return Err("harness: premature attempt in C01".into()),
         };
         if check_truth {
             check_against_truth(spec, &obs, is_last, full.len() - off).map_err(|e| format!("exchange {}: {}", i, e))?;
         }
+        // a redirect that can be followed is followed: the request of the followed flow goes through the same schedule
+        // (its own little server stream: a 200 with two body bytes), and its observation is part of the outcome
+        let mut followed: Option<Obs> = None;
+        if let Terminal::Redirect(mut r) = term {
+            let has_location = spec.resp.head.fields.iter().any(|f| f.lname() == "location");
+            let own_te = spec.body_due() && spec.req_framing == ReqFraming::Te;
+            if has_location && !own_te && i % 2 == 0 {
+                if let Ok(Some(nf)) = r.as_new_flow(ureq_proto::client::flow::RedirectAuthHeaders::SameHost) {
+                    let m2 = nf.method().clone();
+                    let nobody = crate::drive::exgen::no_body_clause(&m2, 200);
+                    let spec2 = ExchangeSpec {
+                        method: m2,
+                        req_v10: spec.req_v10,
+                        uri: String::new(),
+                        req_conn: spec.req_conn,
+                        expect: spec.expect,
+                        despite: false,
+                        req_framing: ReqFraming::Auto,
+                        extra_headers: vec![],
+                        body: vec![],
+                        await_mode: AwaitMode::NeverLook,
+                        server_pre: ServerPre::Silent,
+                        resp: RespSpec {
+                            head: RespHead::simple(200, vec![Field::new("Content-Length", "2"), Field::new("X-Followed", "1")]),
+                            body_wire: if nobody { vec![] } else { b"ok".to_vec() },
+                            payload: if nobody { vec![] } else { b"ok".to_vec() },
+                            close_delimited: false,
+                        },
+                    };
+                    let stream2 = spec2.stream();
+                    match run_exchange(&spec2, Some(nf), &stream2, s).map_err(|e| format!("exchange {} (followed redirect): {}", i, e))? {
+                        Outcome::Done(o2, _) => {
+                            if check_truth {
+                                check_against_truth(&spec2, &o2, true, stream2.len()).map_err(|e| format!("exchange {} (followed redirect): {}", i, e))?;
+                            }
+                            followed = Some(o2);
+                        }
+                        Outcome::Premature(_) => return Err("harness: premature attempt in C01".into()),
+                    }
+                }
+            }
+        }
         off += obs.consumed;
         let close = obs.must_close;
         out.push(obs);
+        if let Some(o2) = followed {
+            out.push(o2);
+        }
         if close {
             break;
         }
@@ -103,8 +149,8 @@ fn exec(t: &mut Tape, st: &mut Stats) -> Result<(), String> {
         }
         // measurement
         let split_any = splits.iter().any(|c| *c as usize >= 2 * canon.len().max(1)) || splits[0] >= 2 || splits[1] >= 2;
-        let has_body = specs.iter().take(canon.len()).any(|sp| sp.body_sent() && !sp.body.is_empty() || !sp.resp.payload.is_empty());
-        let following = canon.len() >= 2 || specs.len() > canon.len();
+        let has_body = specs.iter().any(|sp| sp.body_sent() && !sp.body.is_empty() || !sp.resp.payload.is_empty());
+        let following = canon.len() >= 2 || specs.len() > 1;
         if splits[0] as usize > canon.len() {
             st.class("split_request_head");
         }
@@ -121,7 +167,7 @@ fn exec(t: &mut Tape, st: &mut Stats) -> Result<(), String> {
             st.nontrivial(crate::infra::tape::mix(t.digest(), k as u64));
         }
     }
-    for sp in specs.iter().take(canon.len()) {
+    for sp in specs.iter() {
         if sp.refused() {
             st.class("expect_refused");
         }
@@ -135,8 +181,11 @@ fn exec(t: &mut Tape, st: &mut Stats) -> Result<(), String> {
     st.class(match canon.len() {
         1 => "ran_1_exchange",
         2 => "ran_2_exchanges",
-        _ => "ran_3_exchanges",
+        _ => "ran_3_or_more_exchanges",
     });
+    if canon.iter().any(|o| o.resp_fields.iter().any(|(k, _)| k == "x-followed")) {
+        st.class("followed_a_redirect");
+    }
     if st.wants_sample() && canon.len() == 2 && full.len() < 500 {
         st.sample(json!({"exchanges": specs.iter().map(spec_json).collect::<Vec<_>>(), "stream_len": full.len()}));
     }
